@@ -21,7 +21,19 @@ func (ex *Exec) unop(fr *frame, instr *ssa.UnOp, x Value) Value {
 			}
 			panic(Unsupported{"load through opaque pointer " + o.what})
 		}
-		return ex.load(x.(Ptr))
+		v := ex.load(x.(Ptr))
+		// a load through an unsafe-converted pointer (*(*uint64)(unsafe.Pointer(&f))) reinterprets bits
+		switch vv := v.(type) {
+		case FloatV:
+			if isInteger(instr.Type()) {
+				return ex.f.Resize(fbitsOf(vv), widthOf(instr.Type()), false)
+			}
+		case *Term:
+			if isFloat(instr.Type()) && vv.w != 0 {
+				return floatFromBits(ex.f.Resize(vv, floatBits(instr.Type()), false), floatBits(instr.Type()))
+			}
+		}
+		return v
 	case token.NOT:
 		return f.Not(x.(*Term))
 	case token.SUB:
